@@ -379,6 +379,12 @@ func (c19) Regressions() []*Case {
 	ff := c19Make(c19Cfg{Stream: "regression", Pre: []string{"#include <a.h>\fint f(void);\nint g(void);"}, Styles: "m", Use: "qual", Others: "none", Hint: "none"})
 	ff.Name, ff.Stream = "gofmt-formfeed-joins-preamble", "regression"
 	out = append(out, ff)
+	// open finding (gofmt): a preamble block whose comment forms a build constraint line
+	// (`//go:build x` in raw form, `+build linux` as one-line text) is taken out of the
+	// preamble by go/printer (fixGoBuildLines) and becomes a real constraint above the package clause
+	bc := c19Make(c19Cfg{Stream: "regression", Pre: []string{"#include <a.h>", "//go:build x", "+build linux", "int f();"}, Styles: "olol", Use: "qual", Others: "none", Hint: "none"})
+	bc.Name, bc.Stream = "gofmt-hoists-build-constraint-from-preamble", "regression"
+	out = append(out, bc)
 	return out
 }
 
